@@ -87,6 +87,9 @@ func numJ(f float64) J {
 	if math.IsNaN(f) {
 		return J{"k": "nan"}
 	}
+	if f == 0 && math.Signbit(f) {
+		return J{"k": "nzero"}
+	}
 	if math.IsInf(f, 0) {
 		return J{"k": "inf", "neg": f < 0}
 	}
@@ -139,6 +142,8 @@ func numJ(f float64) J {
 // numFromJ: number record -> float64; the record must denote exactly that double
 func numFromJ(j J) float64 {
 	switch j["k"] {
+	case "nzero":
+		return math.Copysign(0, -1)
 	case "fin":
 		n, s, e := toInt(j["n"]), toInt(j["s"]), toInt(j["e"])
 		f := math.Ldexp(float64(n), -s) + math.Ldexp(float64(e), -32)
